@@ -279,12 +279,35 @@ fn stub_vec_push<T, A: std::alloc::Allocator>(v: &mut Vec<T, A>, value: T) {
     }
 }
 
-/// One coordinate query against a legal list of up to three arbitrary moves: exactly one legal move matches => the
-/// result is by_performing_move of THAT move; none matches => UnknownMove; several match => AmbiguousMove (the position
-/// passed in is borrowed immutably, so it is unchanged in every case).
+static mut APPLIED: [u32; 8] = [0; 8]; // [number of by_performing_move calls, raw move of the last call, ..]
+
+/// contract of State::by_performing_move used at the call site of by_performing_moves (the contract itself is what the
+/// eight c02_step_* obligations prove): here only WHICH move is applied to WHICH position matters, so the stub records
+/// the move, checks the position is the one handed in (identified by its clocks) and returns a successor tagged with
+/// the move's raw value
+fn stub_by_performing_move(state: &State, mv: &Move) -> Result<State, MovePerformError> {
+    unsafe {
+        APPLIED[0] += 1;
+        APPLIED[1] = mv.as_raw();
+    }
+    assert!(state.clock().halfmove_clock == 3 && state.clock().fullmove_number == 7, "the move is applied to the position handed in");
+    Ok(State::new(
+        board_from(&[0u64; 16]),
+        !state.turn_to_move(),
+        crate::utils::ArrayMap::new([CastleRights::NONE, CastleRights::NONE]),
+        None,
+        Clock { halfmove_clock: 1000, fullmove_number: mv.as_raw() as usize },
+    ))
+}
+
+/// One coordinate query against a legal list of up to three arbitrary moves: exactly one legal move matches => THAT
+/// move (and no other) is applied, once, to the position handed in, and its successor is the result; none matches =>
+/// UnknownMove; several match => AmbiguousMove; in both error cases nothing is applied (the position passed in is
+/// borrowed immutably, so it is unchanged in every case).
 #[kani::proof]
 #[kani::unwind(8)]
 #[kani::stub(crate::movegen::MoveGenerator::compute_legal_moves, stub_compute_legal_moves)]
+#[kani::stub(crate::state::State::by_performing_move, stub_by_performing_move)]
 #[kani::stub(std::vec::Vec::push, stub_vec_push)]
 fn c02_select_by_coordinates() {
     unsafe {
@@ -319,30 +342,21 @@ fn c02_select_by_coordinates() {
         i += 1;
     }
     let r = State::by_performing_moves(&state, &[q]);
+    let (calls, applied) = unsafe { (APPLIED[0], APPLIED[1]) };
     if hits == 1 {
-        let m = crate::moves::verif_c20::move_from_raw(z[which]);
-        let expect = State::by_performing_move(&state, &m);
-        match (&r, &expect) {
-            (Ok(a), Ok(b)) => {
-                assert!(a.turn_to_move() == b.turn_to_move() && a.en_passant_target() == b.en_passant_target());
-                assert!(a.clock().halfmove_clock == b.clock().halfmove_clock && a.clock().fullmove_number == b.clock().fullmove_number);
-                let pi = PieceIndex(kani::any());
-                kani::assume(pi.0 < 16);
-                assert!(a.board().piece_occupancy(pi) == b.board().piece_occupancy(pi));
-                assert!(a.castle_rights(Color::White) == b.castle_rights(Color::White));
-                assert!(a.castle_rights(Color::Black) == b.castle_rights(Color::Black));
-            }
-            (Err(a), Err(b)) => assert!(a == b),
-            _ => assert!(false),
+        assert!(calls == 1 && applied == z[which], "exactly the matching legal move is applied, once");
+        match &r {
+            Ok(a) => assert!(a.clock().halfmove_clock == 1000 && a.clock().fullmove_number == z[which] as usize, "the result is that move's successor"),
+            Err(_) => assert!(false),
         }
     } else if hits == 0 {
-        assert!(r == Err(MovePerformError::UnknownMove));
+        assert!(calls == 0 && r == Err(MovePerformError::UnknownMove));
     } else {
-        assert!(r == Err(MovePerformError::AmbiguousMove));
+        assert!(calls == 0 && r == Err(MovePerformError::AmbiguousMove));
     }
     // the argument is untouched
     assert!(state.turn_to_move() == turn && state.clock().halfmove_clock == 3 && bb(state.board().occupancy()) == bit(4) | bit(60));
-    kani::cover!(hits == 1, "unique match reachable");
-    kani::cover!(hits == 0, "no match reachable");
+    kani::cover!(hits == 1 && which == 2, "unique match reachable");
+    kani::cover!(hits == 0 && z[3] == 3, "no match reachable");
     kani::cover!(hits == 2, "ambiguous reachable");
 }
